@@ -56,6 +56,12 @@ extern int fiber_sleep(uint32_t seconds, uint32_t useconds);
 // called when a file descriptor is closed
 extern void fiber_fd_closed(int fd);
 
+// the same, split around the real close(): fibers waiting on fd are woken by
+// fiber_fd_close_begin(), and no fiber can start waiting on fd until
+// fiber_fd_close_end() (called after the descriptor is really closed)
+extern void fiber_fd_close_begin(int fd);
+extern void fiber_fd_close_end(int fd);
+
 #ifdef __cplusplus
 }
 #endif
